@@ -126,7 +126,7 @@ class Terms(object):
             b = self.term(func, node, e.orelse, env, depth)
             if a == b:
                 return a
-            return ("ite", self.cond_key(func, node, e.test, env, depth), a, b)
+            return self.mk_ite(self.cond_key(func, node, e.test, env, depth), a, b)
         if isinstance(e, ast.Tuple):
             return ("tuple",) + tuple(self.term(func, node, x, env, depth) for x in e.elts)
         if isinstance(e, ast.List):
@@ -173,6 +173,15 @@ class Terms(object):
                     return ("opaque", key(e))
             return self.concat(parts) if parts else C("")
         return ("opaque", key(e))
+
+    @staticmethod
+    def mk_ite(cond, a, b):
+        """`x if x else y` is `x or y`, `y if x else x` is `x and y` (x call-free or not: the term stands for the value)"""
+        if cond[0] == "cond" and cond[1] == a and a != b:
+            return ("bool", "or", a, b)
+        if cond[0] == "cond" and cond[1] == b and a != b:
+            return ("bool", "and", b, a)
+        return ("ite", cond, a, b)
 
     def cond_key(self, func, node, test, env, depth):
         return ("cond", self.term(func, node, test, env, depth))
@@ -311,7 +320,7 @@ class Terms(object):
                     if ta == tb:
                         return ta
                     cond = self.cond_key(func, tn, tn.ast.test, env, depth + 1)
-                    return ("ite", cond, ta, tb) if lab == "true" else ("ite", cond, tb, ta)
+                    return self.mk_ite(cond, ta, tb) if lab == "true" else self.mk_ite(cond, tb, ta)
         return None
 
     def _decided_arm(self, func, d, use_node):
@@ -396,6 +405,10 @@ class Terms(object):
         if t[0] == "ite":
             a, b = self.project(t[2], i), self.project(t[3], i)
             return a if a == b else ("ite", t[1], a, b)
+        if t[0] == "slice" and isinstance(i, int) and i >= 0:
+            r = self.subscript(t, C(i))
+            if r[0] != "sub":
+                return r
         return ("proj", t, i)
 
     def phi(self, alts):
@@ -440,6 +453,11 @@ class Terms(object):
         if (base[0] == "slice" and base[3] == ("c", None) and base[4] == ("c", None) and base[2][0] == "c" and isinstance(base[2][1], int) and base[2][1] >= 0
                 and idx[0] == "c" and isinstance(idx[1], int) and not isinstance(idx[1], bool) and idx[1] < 0):
             base = base[1]
+        # x[a:][i] is x[a+i], x[a:b][i] is x[a+i] when a+i < b (a, b, i >= 0: whenever the former exists, it is that element)
+        if (base[0] == "slice" and base[4] == ("c", None) and base[2][0] == "c" and (base[2][1] is None or (isinstance(base[2][1], int) and not isinstance(base[2][1], bool) and base[2][1] >= 0))
+                and idx[0] == "c" and isinstance(idx[1], int) and not isinstance(idx[1], bool) and idx[1] >= 0
+                and base[3][0] == "c" and (base[3][1] is None or (isinstance(base[3][1], int) and not isinstance(base[3][1], bool) and (base[2][1] or 0) + idx[1] < base[3][1]))):
+            return self.subscript(base[1], C((base[2][1] or 0) + idx[1]))
         if base[0] == "c" and isinstance(base[1], dict):
             if self._wire and base[1] == self._wire:
                 if idx[0] == "c":
@@ -673,7 +691,7 @@ class Terms(object):
                     ta, tb = build(a, tests[k + 1:]), build(b, tests[k + 1:])
                     if ta == tb:
                         return ta
-                    return ("ite", self.cond_key(callee, tn, tn.ast.test, env, depth), ta, tb)
+                    return self.mk_ite(self.cond_key(callee, tn, tn.ast.test, env, depth), ta, tb)
             return self.phi([rterm(r) for r in group])
 
         tests = [n for n in g.nodes if n in live and n.kind == "test" and isinstance(n.ast, ast.If) and not n.loops]
